@@ -165,8 +165,16 @@ def check_case(case, seed, entity_mode="random", options_override=None, want_num
                             md["quadrature_degree"] = exact_ref      # no degree requested: must be exact
                         return md
                     oform = ufl.Form([g.reconstruct(metadata=_md(g)) for g in oform.integrals()])
+                grp = None
+                if k["ir"].part.name != "diagonal":
+                    # the integrals of exactly this kernel's integral-data group (several groups may serve one id)
+                    gi = [id(x) for x in fd.integral_data].index(id(itg))
+                    grp = oracle.group_integrals(fd.original_form, gi, itype, itg.subdomain_id, complex_mode=(sc is complex))
+                    if grp is not None and exact_ref is not None:
+                        grp = [g_.reconstruct(metadata=_md(g_)) for g_ in grp]
                 exp = oracle.reference_tensor(oform, itype, sid, cells, wvals, cvals, e or [0], scalar=sc,
-                                              diagonal=(k["ir"].part.name == "diagonal"), match_physical=fminus is not None)
+                                              diagonal=(k["ir"].part.name == "diagonal"), match_physical=fminus is not None,
+                                              integrals=grp)
                 exp = np.asarray(exp).reshape(-1)
                 tol = (2e-4 if "32" in scalar or "64" == scalar[-2:] and "complex64" == scalar else 1e-9)
                 tol = 2e-4 if scalar in ("float32", "complex64") else 1e-9
